@@ -305,3 +305,9 @@ mod tests {
         }
     }
 }
+
+/// deterministic pseudo-random tape (used by exhaustive tiers that want varied but seed independent schedules)
+pub fn prf_cells(seed: u64, n: usize) -> Vec<u16> {
+    let b = prf_bytes(seed, n * 2);
+    b.chunks(2).map(|c| u16::from_le_bytes([c[0], c[1]])).collect()
+}
